@@ -167,7 +167,7 @@ CLAIMED['C06'] = {
             'Ok(0); the fan retriangulation reports success only behind the local facet, orientation and incidence checks; '
             'when the repair policy fires, Ok lies behind the success edge of the verified flip repair, and that decision does '
             'not read the insertion counter; the fan retriangulation must report success only behind a Level-3 validation of '
-            'its result (violated today: known finding F13, hull vertices); the fan apex is selected with the facet (opposite-vertex) index or an (in)equality test, so it cannot be the removed vertex; the fan fill closes every boundary facet that does not contain the apex; the raw Tds removal (deletes the star, fills nothing) is reached only behind the fan fill or behind an emptiness decision on the star computed from the cells stored in the Tds. Decides rollback, the no-op clause and the gating '
+            'its result (violated today: known finding F13, hull vertices); the fan apex is selected with the facet (opposite-vertex) index or an (in)equality test, so it cannot be the removed vertex; the fan fill closes every boundary facet that does not contain the apex; the raw Tds removal (deletes the star, fills nothing) is reached only behind the fan fill or behind an emptiness decision on the star computed from the cells stored in the Tds; the flip kernel behind the fast path (inverse k=1) reports success only behind neighbour wiring, removal of the old cells and the orientation normalisation. Decides rollback, the no-op clause and the gating '
             'of removal; not whether a valid fan exists.',
     'note': 'Trusted: as for C03. Known finding F13 is listed in known_findings.txt with its run-time witnesses; the check '
             'prints KNOWN-FINDING for it and exits 0.',
